@@ -1,6 +1,8 @@
 (** Model of transport/transport.go (package state [cfg], [SetConfig], [NewTransport]),
-    of the per-route transport built in route/route.go:78-82, of the error→status map
-    of proxy/http_handler.go:40-66 and of the response-header time limit as an abstract
+    of the per-route transport built in route/route.go:78-82, of the transport choice of
+    proxy/http_proxy.go:217-222, of the order in which main() sets the configuration and
+    builds transports (main.go:73, 141-156, 230-233), of the error→status map of
+    proxy/http_handler.go:40-66 and of the dial / response-header time limits as an abstract
     race between the upstream's delay and the configured limit.  Durations are integers
     (nanoseconds in the harness); 0 means "no limit", as in net/http. *)
 From Coq Require Import String List ZArith Bool.
@@ -8,7 +10,8 @@ From Fabio Require Import Lib.Outcome Lib.Bytes.
 Import ListNotations.
 Local Open Scope Z_scope.
 
-(* the five upstream limits of config.Proxy the transport is built from *)
+(* the five upstream limits of config.Proxy the transport is built from; every value of the Go
+   types is allowed (config.Load does not reject negative durations or a negative proxy.maxconn) *)
 Record limits := {
   l_rht : Z;        (* ResponseHeaderTimeout *)
   l_idle : Z;       (* IdleConnTimeout *)
@@ -22,12 +25,21 @@ Definition zero_limits : limits := {| l_rht := 0; l_idle := 0; l_maxconn := 0; l
 Record tlscfg := { tls_server_name : str; tls_skip_verify : bool }.
 
 Record transport := {
-  t_rht : Z; t_idle : Z; t_maxidle : Z; t_dial : Z; t_keepalive : Z;
+  t_rht : Z; t_idle : Z; t_maxidle : Z;
+  (* Timeout / KeepAlive of the net.Dialer the transport connects with (Transport.DialContext if set,
+     else Transport.Dial); both 0 when the transport has no dialer of its own *)
+  t_dial : Z; t_keepalive : Z;
   t_tls : option tlscfg;
-  (* number of OTHER connection-limit fields of http.Transport that are set (MaxIdleConns,
-     MaxConnsPerHost, TLSHandshakeTimeout, ExpectContinueTimeout, DisableKeepAlives, ...):
-     NewTransport sets none, so no limit applies that the operator did not configure *)
-  t_other : Z
+  (* how many of the OTHER fields of http.Transport that limit upstream connections or take the
+     connect away from the configured dialer are set: MaxConnsPerHost, MaxIdleConns, DialTLS,
+     DialTLSContext, DisableKeepAlives.  NewTransport sets none: no limit applies that the
+     operator did not configure and no connect escapes the configured dialer *)
+  t_other : Z;
+  (* how many further exported fields of http.Transport are not at their zero value
+     (DisableCompression apart, which NewTransport sets and which is C07's subject).  Not part of
+     the property: compared for correspondence only, so that a field the model does not know is
+     looked at by a human *)
+  t_unknown : Z
 }.
 
 (* package state: var cfg *config.Config = &config.Config{} *)
@@ -38,10 +50,13 @@ Definition init_state : state := zero_limits.
 Definition set_config (s : state) (c : limits) : state := c.
 (* SetConfig as it was (cfg = cfg on the shadowing parameter): a no-op on the state *)
 Definition set_config_shadowed (s : state) (c : limits) : state := s.
+(* SetConfig stores the caller's POINTER: when the caller later writes to the struct it passed,
+   the package reads the new values (main() does not do that; see checks/C19.json assumptions) *)
+Definition caller_writes (s : state) (c : limits) : state := c.
 
 Definition new_transport (s : state) (tls : option tlscfg) : transport :=
   {| t_rht := l_rht s; t_idle := l_idle s; t_maxidle := l_maxconn s;
-     t_dial := l_dial s; t_keepalive := l_keepalive s; t_tls := tls; t_other := 0 |}.
+     t_dial := l_dial s; t_keepalive := l_keepalive s; t_tls := tls; t_other := 0; t_unknown := 0 |}.
 
 Inductive op := SetConfig (c : limits) | NewTransport (tls : option tlscfg).
 
@@ -55,10 +70,77 @@ Fixpoint run (set : state -> limits -> state) (s : state) (ops : list op) : list
 
 (* route/route.go:78-82: a target gets its own transport only for a host override
    other than "dst" on an https destination *)
+Definition wants_transport (host : str) (dst_https proto_https : bool) : bool :=
+  negb (beq host []) && negb (beq host (bs "dst"%string)) && (dst_https || proto_https).
 Definition route_transport (s : state) (host : str) (dst_https proto_https skip : bool) : option transport :=
-  if negb (beq host []) && negb (beq host (bs "dst"%string)) && (dst_https || proto_https)
+  if wants_transport host dst_https proto_https
   then Some (new_transport s (Some {| tls_server_name := host; tls_skip_verify := skip |}))
   else None.
+(* opts["proto"] == "https": the option value is compared as written (proto=HTTPS is not https) *)
+Definition proto_is_https (proto : str) : bool := beq proto (bs "https"%string).
+
+(* ---- which transport serves a target, and when main() builds them ---- *)
+
+(* a target as far as the transports are concerned: opts host / proto / tlsskipverify and whether
+   the destination URL has scheme https *)
+Record target := { tg_host : str; tg_dst_https : bool; tg_proto : str; tg_skip : bool }.
+Definition target_tls (tg : target) : tlscfg := {| tls_server_name := tg_host tg; tls_skip_verify := tg_skip tg |}.
+Definition target_transport (s : state) (tg : target) : option transport :=
+  route_transport s (tg_host tg) (tg_dst_https tg) (proto_is_https (tg_proto tg)) (tg_skip tg).
+
+(* proxy/http_proxy.go:217-222: the target's own transport if it has one, else the skip-verify
+   transport for tlsskipverify=true, else the default transport *)
+Definition select_transport (per_route : option transport) (skip : bool) (dflt insecure : transport) : transport :=
+  match per_route with
+  | Some t => t
+  | None => if skip then insecure else dflt
+  end.
+
+(* main.go:233: &tls.Config{InsecureSkipVerify: true} *)
+Definition insecure_tls : tlscfg := {| tls_server_name := []; tls_skip_verify := true |}.
+
+(* what the HTTP proxy holds once main() is serving: the targets of the routing table with their
+   private transports, the default and the skip-verify transport *)
+Record proxy := { px_targets : list (target * option transport); px_default : transport; px_insecure : transport }.
+
+(* route.NewTable -> Route.addTarget for every target, from the package state at that moment *)
+Definition build_table (s : state) (tgs : list target) : list (target * option transport) :=
+  map (fun tg => (tg, target_transport s tg)) tgs.
+
+(* main(): transport.SetConfig(cfg) (main.go:73); initBackend / watchBackend build the first routing
+   table and main waits for it (main.go:141-153); startServers -> newHTTPProxy then builds the
+   default and the skip-verify transport (main.go:156, 232-233) *)
+Definition main_start (set : state -> limits -> state) (s0 : state) (cfg : limits) (tgs : list target) : proxy :=
+  let s := set s0 cfg in
+  let tbl := build_table s tgs in
+  {| px_targets := tbl; px_default := new_transport s None; px_insecure := new_transport s (Some insecure_tls) |}.
+(* the same with SetConfig moved to the top of startServers, i.e. after the first table is built *)
+Definition main_start_late (set : state -> limits -> state) (s0 : state) (cfg : limits) (tgs : list target) : proxy :=
+  let tbl := build_table s0 tgs in
+  let s := set s0 cfg in
+  {| px_targets := tbl; px_default := new_transport s None; px_insecure := new_transport s (Some insecure_tls) |}.
+(* a later routing table (watchBackend, every change of the registry): same package state *)
+Definition reload (s : state) (px : proxy) (tgs : list target) : proxy :=
+  {| px_targets := build_table s tgs; px_default := px_default px; px_insecure := px_insecure px |}.
+
+(* the same start-up as a history of package operations, in the order main() performs them *)
+Definition target_ops (tg : target) : list op :=
+  if wants_transport (tg_host tg) (tg_dst_https tg) (proto_is_https (tg_proto tg))
+  then [NewTransport (Some (target_tls tg))] else [].
+Definition table_ops (tgs : list target) : list op := flat_map target_ops tgs.
+Definition servers_ops : list op := [NewTransport None; NewTransport (Some insecure_tls)].
+Definition main_ops (cfg : limits) (tgs : list target) : list op := SetConfig cfg :: table_ops tgs ++ servers_ops.
+Definition main_ops_late (cfg : limits) (tgs : list target) : list op := table_ops tgs ++ SetConfig cfg :: servers_ops.
+(* every transport the proxy holds, in the order they were built *)
+Definition proxy_transports (px : proxy) : list transport :=
+  flat_map (fun p => match snd p with Some t => [t] | None => [] end) (px_targets px) ++ [px_default px; px_insecure px].
+
+(* the transport a request for the i-th target of the table is handed to *)
+Definition chosen (px : proxy) (i : nat) : option transport :=
+  match nth_error (px_targets px) i with
+  | Some (tg, pr) => Some (select_transport pr (tg_skip tg) (px_default px) (px_insecure px))
+  | None => None
+  end.
 
 (* proxy/http_handler.go: httpProxyErrorHandler *)
 Inductive errkind :=
@@ -66,22 +148,30 @@ Inductive errkind :=
 | ENetOther      (* implements net.Error, Timeout() = false *)
 | EEOF           (* == io.EOF *)
 | ECanceled      (* == context.Canceled *)
+| EWrapsTimeout  (* does not implement net.Error itself but wraps (errors.As) one whose Timeout() = true:
+                    the handler uses a type assertion, not errors.As, so this is "any other error".
+                    http.Transport hands the response-header, dial and TLS-handshake timeouts out bare *)
 | EOther.
 Definition error_status (e : errkind) : Z :=
   match e with
-  | ENetTimeout => 504 | ENetOther => 502 | EEOF => 502 | ECanceled => 499 | EOther => 500
+  | ENetTimeout => 504 | ENetOther => 502 | EEOF => 502 | ECanceled => 499 | EWrapsTimeout => 500 | EOther => 500
   end.
 
-(* connecting to the upstream takes [connect] and the dialer gives up after [limit] (0 = never);
-   a dial timeout is a net.Error with Timeout() = true, so the client is answered 504.
+(* connecting to the upstream takes [connect] >= 0 and the dialer gives up after [limit] (0 = never).
+   net.Dialer turns every non-zero Timeout into a deadline now+Timeout (net/dial.go: "including
+   negative, for historical reasons"), so a negative limit is a deadline in the past: the connect
+   fails at once.  A dial timeout is a net.Error with Timeout() = true, so the client is answered 504.
    The same dialer serves every transport NewTransport builds, with or without TLS settings. *)
+Definition dial_expires (limit connect : Z) : bool := (limit <? 0) || ((0 <? limit) && (limit <=? connect)).
 Definition dial (limit connect upstream_status : Z) : Z :=
-  if (0 <? limit) && (limit <=? connect) then error_status ENetTimeout else upstream_status.
+  if dial_expires limit connect then error_status ENetTimeout else upstream_status.
 
-(* the upstream answers its header after [delay]; http.Transport gives up after
-   [limit] (0 = never).  Result: (status, time at which the client is answered). *)
+(* the upstream answers its header after [delay]; http.Transport gives up after [limit]; it starts
+   the timer only for a limit > 0 (net/http/transport.go: `if d := pc.t.ResponseHeaderTimeout; d > 0`),
+   so 0 and negative values mean never.  Result: (status, time at which the client is answered). *)
+Definition rht_expires (limit delay : Z) : bool := (0 <? limit) && (limit <=? delay).
 Definition serve (limit delay upstream_status : Z) : Z * Z :=
-  if (0 <? limit) && (limit <=? delay) then (error_status ENetTimeout, limit)
+  if rht_expires limit delay then (error_status ENetTimeout, limit)
   else (upstream_status, delay).
 
 (* What a layer that hands the request to the transport up to [attempts] times would give
@@ -92,6 +182,6 @@ Definition serve (limit delay upstream_status : Z) : Z * Z :=
    Result: (status, time at which the client is answered, requests the upstream received). *)
 Definition attempts_of_proxy : Z := 1.
 Definition serve_n (attempts limit delay upstream_status : Z) : Z * Z * Z :=
-  if (0 <? limit) && (limit <=? delay)
+  if rht_expires limit delay
   then (error_status ENetTimeout, Z.max 1 attempts * limit, Z.max 1 attempts)
   else (upstream_status, delay, 1).
